@@ -238,3 +238,39 @@ func VerifC13_ZeroKeyWithChain() {
 	sym.Assert(one != nil, "one-shot validation rejects a bottom vote with a chain attached")
 	sym.Assert(two != nil, "full validation rejects a chain attached under the zero key")
 }
+
+// VerifC13_ReplayUnderOtherKey: after a validator has partially validated a
+// member's genuine (stripped) message, the byte-identical stripped message
+// announced under the key of another chain is rejected, exactly as a fresh
+// validator rejects it (the signature is over the announced key): a warm cache
+// never lends a member's signature to another value.
+func VerifC13_ReplayUnderOtherKey() {
+	c := gpbft.VerifNewCommittee()
+	m := gpbft.VerifBuildValid(c)
+	sym.Assume(!m.Vote.Value.IsZero())
+	pm, err := (&PartialMessageManager{}).ToPartialGMessage(m)
+	sym.Assert(err == nil, "strip succeeds")
+	v := gpbft.VerifNewValidator(c, false)
+	ctx := context.Background()
+	_, err = v.PartiallyValidateMessage(ctx, pm)
+	sym.Assert(err == nil, "the genuine stripped message passes partial validation")
+	if sym.Bool("completed-first") {
+		if pv, e2 := v.PartiallyValidateMessage(ctx, pm); e2 == nil {
+			verifComplete(pv.PartialMessage(), m.Vote.Value)
+			_, _ = v.FullyValidateMessage(ctx, pv)
+		}
+	}
+	other := gpbft.VerifX(1 + sym.Choice("other-chain", 4)) // [b], [b,2], [b,2,3], [b,4]
+	sym.Assume(!other.Eq(m.Vote.Value))
+	replay := *pm
+	replay.VoteValueKey = other.Key()
+	sym.Cover("replayed")
+	pv, err := v.PartiallyValidateMessage(ctx, &replay)
+	_, ferr := gpbft.VerifNewValidator(c, false).PartiallyValidateMessage(ctx, &replay)
+	sym.Assert(ferr != nil, "a fresh validator rejects the replay under another key")
+	if err == nil {
+		verifComplete(pv.PartialMessage(), other)
+		_, err = v.FullyValidateMessage(ctx, pv)
+	}
+	sym.Assert(err != nil, "the replay of a member's message under the key of another chain is never admitted")
+}
